@@ -215,6 +215,53 @@ def long_length_bonus(prog, res):
     res.need(R, 4)
 
 
+def two_repcode_histories(prog, res):
+    """T9: ZSTD_seqStore_resolveOffCodes walks a partition with TWO repcode histories — the one the decoder will have
+    (first parameter) and the one the compressor had when it chose the codes (second parameter) — and rewrites a repcode
+    into a raw offset when they disagree.  The compressor-side history must be advanced with the code the compressor
+    CHOSE, i.e. a value of seq->offBase read before the rewrite; the decoder-side history with the code finally stored.
+    Clause checked: the value handed to the compressor-side ZSTD_updateRep is read at a point that every path to a write of
+    seq->offBase passes (it is captured before the rewrite); the decoder-side one is read after."""
+    R = "T9.two-repcode-histories"
+    f = prog.fn("ZSTD_seqStore_resolveOffCodes")
+    writes = f.find_roots(lambda x: x.get("k") == "asg" and strip_casts(x["lhs"]).get("k") == "mem" and strip_casts(x["lhs"]).get("f") == "offBase")
+    ups = [(b, i, c) for b, i, c in f.calls("ZSTD_updateRep")]
+    res.check(len(writes) >= 1 and len(ups) == 2, R, "shape", f.loc, "%d rewrite(s) of offBase, two history updates" % len(writes),
+              "rewrites of offBase: %d, history updates: %d" % (len(writes), len(ups)))
+    side = {}
+    for b, i, c in ups:
+        a0 = f.anchors(c["a"][0], depth=2)
+        which = "compressor" if "p:1" in a0 else ("decoder" if "p:0" in a0 else None)
+        if which:
+            side[which] = (b, i, c)
+    res.check(set(side) == {"compressor", "decoder"}, R, "both-histories-updated", f.loc, "one update per history", "history updates found for: %s" % sorted(side))
+    if "compressor" in side and writes:
+        b, i, c = side["compressor"]
+        v = strip_casts(f.resolve_x(c["a"][1]))
+        read_at = None
+        if v is not None and v.get("k") == "ref" and v.get("rk") in ("l", "sl"):
+            defs = [(bb, ii) for bb, ii, r in f.roots() for x in walk(r) if x.get("k") == "decl" and any(vv.get("n") == v["n"] and vv.get("init") is not None and
+                    any(y.get("f") == "offBase" for y in f.walk_resolved(vv["init"])) for vv in x.get("vars", []))]
+            read_at = defs if len(defs) == 1 and f.single_def(v["n"]) is not None else None
+        elif v is not None and any(y.get("k") == "mem" and y.get("f") == "offBase" for y in f.walk_resolved(v)):
+            read_at = [(b, i)]
+        ok = bool(read_at) and all(f.must_pass(via_roots=read_at, targets=[w]) for w in writes)
+        res.check(ok, R, "compressor-history:code-as-chosen", "%s:%s" % (f.file, c.get("l")),
+                  "the compressor-side history is advanced with seq->offBase as read before the rewrite",
+                  "the compressor-side repcode history is advanced with seq->offBase re-read after it may have been rewritten into a raw "
+                  "offset: the history no longer matches what the compressor had, later repcodes of the block are resolved to wrong raw "
+                  "offsets and the frame decodes to other bytes (only a checksum notices)")
+    if "decoder" in side and writes:
+        b, i, c = side["decoder"]
+        v = strip_casts(f.resolve_x(c["a"][1]))
+        direct = v is not None and any(y.get("k") == "mem" and y.get("f") == "offBase" for y in f.walk_resolved(v))
+        after = f.flow([(bb, ii + 1) for bb, ii in writes])
+        res.check(direct and (b, i) in after, R, "decoder-history:code-as-stored", "%s:%s" % (f.file, c.get("l")),
+                  "the decoder-side history is advanced with the stored seq->offBase, after the rewrite",
+                  "the decoder-side history is not advanced with the code finally stored in the sequence")
+    res.need(R, 4)
+
+
 def run(tier):
     res = Result("C01", tier)
     tus, info = extract(["compress", "decompress", "common"])
@@ -226,6 +273,7 @@ def run(tier):
     fallback_and_handover(prog, res)
     tentative_table_rollback(prog, res)
     long_length_bonus(prog, res)
+    two_repcode_histories(prog, res)
     t4_common.run(prog, res, "T4.error-discipline", ["lib/compress/"], 220)
     # frozen guards of lib/compress for the error codes this property owns (shared inventory, split by code)
     import json as _json, os as _os
